@@ -61,6 +61,7 @@ theorem extRT_ok : ScalarRT extRT where
     have h1 : strTy "complex" = false := by decide
     have h2 : isoTy "complex" = none := by decide
     simp [extRT, h1, h2] at h
+  noElemHook := fun _ => rfl
   call_opaque := by
     intro ty v y hty h
     simp only [extRT, hty, if_true] at h
